@@ -180,6 +180,48 @@ Definition doc_spec_names : list (list Z) :=
   [[112; 108; 97; 116; 101]; [102; 105; 98; 101; 114]; [109; 106; 100]; [114; 117; 110; 50; 100]; [108; 105; 110; 101]].
    (* plate fiber mjd run2d line *)
 
+(* ---------------- round 6: how a scalar argument is spelled (class E) ---------------- *)
+
+(* FPy: a Python int or bool (isinstance(x, int) holds; the promotion helpers see its integer value);
+   FNp c: a NumPy integer / boolean scalar or a zero-dimensional array -- an integer for the packers only if the
+   normalising helper found in the source handles class c AND is applied to that argument; otherwise the code treats
+   it as an array of shape (), which this model does not cover (the documented meaning is still its integer value);
+   FArr: an array with at least one dimension. *)
+Inductive sform := FPy | FNp (c : scalar_class) | FArr.
+
+Definition form_is_int (normaliser : option (list scalar_class)) (normalised : list nat) (i : nat) (f : sform) : bool :=
+  match f with
+  | FPy | FArr => true
+  | FNp c => match normaliser with
+             | Some l => existsb (scalar_class_eqb c) l && existsb (Nat.eqb i) normalised
+             | None => false
+             end
+  end.
+
+Definition forms_modelled (normalised : list nat) (forms : list sform) : bool :=
+  forallb (fun p => form_is_int numpy_scalar_normaliser normalised (fst p) (snd p)) (combine (seq 0 (length forms)) forms).
+
+(* the source has a normalising helper, it handles the three classes and is applied to every argument *)
+Definition all_scalar_classes : list scalar_class := [NpIntegerScalar; NpBoolScalar; ZeroDimArray].
+Definition normaliser_complete : bool :=
+  match numpy_scalar_normaliser with
+  | None => false
+  | Some l => forallb (fun c => existsb (scalar_class_eqb c) l) all_scalar_classes
+              && covers 7 7 objid_scalar_normalised && covers 6 6 specobjid_scalar_normalised
+  end.
+
+(* the promotion of a Python int by _int64_array, as read from the source, in terms of the call model's outcomes *)
+Definition int64_array_model (k : pyint_kind) (v : Z) : promo := run_promoter int64_array_promoter k v.
+Definition specobjid_promotion_model (k : pyint_kind) (v : Z) : promo := run_promoter specobjid_promoter k v.
+
+(* every range check of the list has bounds inside int64, and every one of the n fields has a check *)
+Definition checks_inside_int64 (n : nat) (checks : list (nat * Z * Z)) : bool :=
+  forallb (fun c => match c with (_, lo, hi) => fits I64 lo && fits I64 hi end) checks
+  && covers n n (map (fun c => fst (fst c)) checks).
+
+Definition r2_scalar (r : r2in) : option Z := match r with RInt z => Some z | RArr [z] => Some z | _ => None end.
+Definition opt_scalar (a : option arg) : option Z := match a with Some x => arg_scalar x | None => Some 0 end.
+
 (* ---------------- correspondence cases ---------------- *)
 
 Definition eqb_xres (a b : xres) : bool :=
@@ -203,7 +245,11 @@ Inductive xcase :=
 | XUnSpecStr (s : list Z) (expect : xres)
   (* unwrap_*(integer array): the row as stored in the record fields, and for specObjID the run2d tag *)
 | XUnObjTyped (id : Z) (expect : list Z)
-| XUnSpecTyped (id : Z) (expect : list Z) (tag : list Z).
+| XUnSpecTyped (id : Z) (expect : list Z) (tag : list Z)
+  (* round 6: single-row calls with every argument spelled in its own way (forms in the order of the model rows:
+     skyversion rerun run camcol firstfield field objnum / plate fiber mjd run2d line index) *)
+| XObjidForms (forms : list sform) (run camcol field objnum : arg) (rerun sky ff : option arg) (expect : res)
+| XSpecForms (forms : list sform) (plate fiber mjd : arg) (r : r2in) (line index : option arg) (expect : res).
 
 (* verdict: +1 model differs from the implementation; +2 the implementation contradicts the documented behaviour *)
 Definition run_xcase (c : xcase) : Z :=
@@ -250,6 +296,24 @@ Definition run_xcase (c : xcase) : Z :=
       + (match unpack specobjid_table id with
          | [p; f; m; r; l] => if eqb_listZ [p; f; m + 50000; r; l] expect && eqb_listZ (doc_tag r) tag then 0 else 2
          | _ => 0 end)
+  | XObjidForms forms run camcol field objnum rerun sky ff expect =>
+      (if forms_modelled objid_scalar_normalised forms
+          && eqb_res (objid_call run camcol field objnum rerun sky ff) expect then 0 else 1)
+      + (if eqb_res (doc_objid_call run camcol field objnum rerun sky ff) expect then 0 else 2)
+  | XSpecForms forms p f m r l i expect =>
+      (if forms_modelled specobjid_scalar_normalised forms
+          && eqb_res (specobjid_call p f m r l i) expect then 0 else 1)
+      + (match l, i with
+         | Some _, Some _ => if eqb_res expect ValueError then 0 else 2
+         | _, _ =>
+             match arg_scalar p, arg_scalar f, arg_scalar m, r2_scalar r, opt_scalar l, opt_scalar i with
+             | Some pv, Some fv, Some mv, Some rv, Some lv, Some iv =>
+                 if specobjid_doc_ranges [pv; fv; mv - 50000; rv; lv; iv]
+                 then (if eqb_res expect (Ok [pack specobjid_table [pv; fv; mv - 50000; rv; lv + iv]]) then 0 else 2)
+                 else (if eqb_res expect ValueError then 0 else 2)
+             | _, _, _, _, _, _ => 0
+             end
+         end)
   end.
 
 Definition run_xcases (cs : list xcase) : list Z := map run_xcase cs.
